@@ -111,6 +111,11 @@ theorem yaml_agrees :
     · exact this _ yamlKeys2 h
     · exact this _ yamlKeys3 h
 
+/-- **Configurations are independent**: the constructors of the two containers (`StreamsFunctions`, `DataItems`) bind a copy of the
+module-level catalogue list, never the list itself — `update()` on one container cannot reach another container, a settings
+object created later, or the catalogue `lookup_total` speaks about (fact extracted from the constructors' source on every run) -/
+theorem containers_isolated : containerCopiesCatalogue = true ∧ containerCopiesDataItems = true := by decide
+
 /-- non-vacuity: the tables are the 134 shipped functions, 115 of them with a structure; the pairing rule has primaries with
 and without reply and secondaries -/
 example : py.length = 134 ∧ yaml.length = 134 ∧ (py.filter (·.dataFormat.isSome)).length = 115
